@@ -21,6 +21,10 @@ Lemma safe_bind_any : forall {A B} (r : tcr A) (k : A -> tcr B),
   safe r -> (forall a, safe (k a)) -> safe (tbind r k).
 Proof. intros. apply safe_bind; auto. Qed.
 
+Lemma tbind_assoc : forall {A B C} (r : tcr A) (f : A -> tcr B) (k : B -> tcr C),
+  tbind (tbind r f) k = tbind r (fun a => tbind (f a) k).
+Proof. intros. destruct r; reflexivity. Qed.
+
 Lemma wp_guard : forall {B} b w (k : unit -> tcr B), (b = true -> safe (k tt)) -> safe (tbind (guard b w) k).
 Proof. intros B b w k H. destruct b; cbn; auto. Qed.
 
@@ -226,6 +230,8 @@ Ltac step :=
   [ exact I
   | match goal with
     | |- safe (tbind (TOk _) _) => cbn [tbind]
+    | |- safe (tbind (tbind _ _) _) => rewrite tbind_assoc
+    | |- safe (tbind (match nty ?x with _ => _ end) _) => destruct (nty x) eqn:?
     | |- safe (let _ := _ in _) => cbv zeta
     | |- safe (tbind (guard _ _) _) => apply wp_guard; intro
     | |- safe (tbind (linear_gamma _) _) => apply wp_linear
